@@ -14,6 +14,7 @@ for t in ts:
     if r.get("harness_error"):
         print(r["harness_error"]); print(r["traceback"]); continue
     print({k: r[k] for k in ("obligations", "discharged", "unknown", "paths", "vacuous") if k in r}, r.get("stats"))
+    print("  slow:", r.get("slow_obligations"))
     for v in r["violations"][:5]:
         print("  VIOL", v["name"], v["status"], v["info"], json.dumps(v["model"])[:300])
     for c in r["canary"][:3]:
